@@ -544,6 +544,11 @@ impl Vm {
             if let Some(error) = self.verif_step() {
                 return Err(error);
             }
+            if self.stack_size() > object::STACK_HIGH_WATER {
+                let err = error!(ErrorKind::IndexError, "Stack overflow.");
+                self.try_handle_error(err)?;
+                continue;
+            }
             if cfg!(feature = "debug_trace") {
                 println!("          {}", self.active_fiber().stack);
                 let offset = self.active_chunk.code_offset(self.ip);
